@@ -37,8 +37,8 @@ type opSpec struct {
 	// (with run_twice): the second run of the process is not forced although the first was.
 	// REPL: the build is started through the REPL's run(label, always=, dry_run=, callback=)
 	// builtin; the events reach a Starlark callback through dawn's channel-based adapter.
-	REPL     bool `json:"via_repl_run_builtin,omitempty"`
-	FailLate bool `json:"fail_after_writing,omitempty"`
+	REPL        bool `json:"via_repl_run_builtin,omitempty"`
+	FailLate    bool `json:"fail_after_writing,omitempty"`
 	SecondPlain bool `json:"second_run_not_forced,omitempty"`
 }
 
@@ -145,6 +145,11 @@ func (p *projSpec) applySpecEdit(op *opSpec) bool {
 		if _, ok := p.Files[op.Path]; ok {
 			p.Files[op.Path] = fmt.Sprintf("content of %s v%d\n", filepath.Base(op.Path), op.N)
 		}
+	case "delete-source":
+		// a listed source file is deleted (it stays listed); undone by restore-deleted-source
+		delete(p.Files, op.Path)
+	case "restore-deleted-source":
+		p.Files[op.Path] = fmt.Sprintf("content of %s v0\n", filepath.Base(op.Path))
 	case "dir-add":
 		p.Files[filepath.Join(op.Path, fmt.Sprintf("added%d.txt", op.N))] = fmt.Sprintf("added %d\n", op.N)
 	case "dir-remove":
@@ -479,6 +484,23 @@ func genSemanticEdit(r *rand.Rand, p *projSpec, serial int) *opSpec {
 				continue
 			}
 			sort.Strings(files)
+			if r.IntN(5) == 0 {
+				// a plain file that a target lists by name disappears
+				var listed []string
+				for i := range p.Targets {
+					t := &p.Targets[i]
+					for _, s := range t.Sources {
+						rel := p.sourceRel(t, s)
+						if c, ok := p.Files[rel]; ok && !strings.HasPrefix(c, linkMark) && !strings.Contains(s, "..") {
+							listed = append(listed, rel)
+						}
+					}
+				}
+				sort.Strings(listed)
+				if len(listed) > 0 {
+					return &opSpec{Op: "delete-source", Path: listed[r.IntN(len(listed))]}
+				}
+			}
 			return &opSpec{Op: "edit-source", Path: files[r.IntN(len(files))], N: serial}
 		case 6:
 			dirs := p.sourceDirs()
